@@ -226,6 +226,20 @@ theorem mul_sim_lot (pks : List (G × ℤ)) :
     simLot gops pks = some ((pks.map fun pk => pk.2 • pk.1).sum) :=
   simLot_correct pks
 
+/-- ed_mul_dig: total, [k]P for every digit k < 2^w and every point (recoding buffer of w + 1 entries) -/
+theorem mul_dig (isO : G → Bool) (hO : IsOSound isO) (w : Nat) (p : G) (k : Nat) (hk : k < 2 ^ w) :
+    mulDig gops isO w p k = some ((k : ℤ) • p) :=
+  mulDig_correct isO hO w p k hk
+
+/-- the dispatch of ed_mul_gen and ed_mul_sim_gen (early exits k = 0, m = 0 ∨ Q = O; generator-table branch or ed_mul_sim) is right
+    whenever the routines it calls are (those are `mul_variable_base`, `mul_fixed_base`, `mul_fix_combd`, `mul_sim`) -/
+theorem mul_gen_dispatch (isO : G → Bool) (hO : IsOSound isO) (mul fix : G → ℤ → Option G) (sim : G → ℤ → G → ℤ → Option G)
+    (plain : Option (G → ℤ → G → ℤ → Option G)) (g : G) (k : ℤ) (q : G) (m : ℤ)
+    (hmul : mul q m = some (m • q)) (hfix : fix g k = some (k • g)) (hsim : sim g k q m = some (k • g + m • q))
+    (hplain : ∀ f, plain = some f → f g k q m = some (k • g + m • q)) :
+    mulGen gops fix g k = some (k • g) ∧ simGen gops isO mul fix sim plain g k q m = some (k • g + m • q) :=
+  ⟨mulGen_correct fix g k hfix, simGen_correct isO hO mul fix sim plain g k q m hmul hfix hsim hplain⟩
+
 /-- the hypotheses are satisfiable (ℤ/7ℤ is killed by 7 < 2^255) and the routines compute (−153 mod 7 = 1) -/
 example : (⟨255, 4, 5, 7⟩ : Par).Ok ∧ ((7 : ℕ) : ℤ) • (1 : ZMod 7) = 0 :=
   ⟨⟨by decide, by norm_num⟩, by decide⟩
